@@ -9,7 +9,8 @@ From Flocq Require Import Core.Core.
 Require Import Blots.Num Blots.Outcome Blots.DisplayNum.
 Require Import Blots.proofs.DisplayNumGroup Blots.proofs.DisplayNumSpec Blots.proofs.DisplayNumText
                Blots.proofs.DisplayNumInt Blots.proofs.DisplayNum Blots.proofs.DisplayNumAcc
-               Blots.proofs.DisplayNumFloat Blots.proofs.DisplayNumFinite Blots.proofs.DisplayNumAccStd.
+               Blots.proofs.DisplayNumFloat Blots.proofs.DisplayNumFinite Blots.proofs.DisplayNumAccStd
+               Blots.proofs.DisplayNumAccAll.
 From Coq Require Import Qreals.
 Import ListNotations.
 Open Scope char_scope.
@@ -414,6 +415,75 @@ Example C20_hyp_std_sample :
   (let m := num_of_bits 0x40934a456d5cfaad in
    Qle_bool (Qabs (denote_plain (fmt_prec_exec m 11) - num_to_Q m)) ((1 # 2) * Qpower (10 # 1) (-11)) = true).
 Proof. vm_compute. repeat split. Qed.
+
+(* ---- THE ACCURACY CLAUSE AS ONE THEOREM: for EVERY valid finite non-zero double x with
+        10^K <= |x| < 10^(K+1), the text displayed by the code as it is (fx = true) denotes a number
+        less than one unit of the 15th significant digit (10^(K-14)) away from x — relative to the
+        listed specifications of the library calls (core::fmt, parse::<f64>, log10, powi), which
+        are hypotheses, not proved facts about Rust's std/libm (they are exercised by the ORACLE
+        streams).  Combines the three partial theorems above. ---- *)
+Theorem C20_accuracy : forall log10 powi fmt_prec fmt_exp14 parse_f64,
+  (* {:.14e} is x correctly rounded to 15 significant digits *)
+  (forall x k, is_finite x = true -> in_decade x k ->
+    exists ms es kk, split_once "e" (fmt_exp14 x) = Some (ms, es) /\ mant14_shape ms = true /\
+      parse_i32 es = Some kk /\
+      (Qabs (denote_plain ms * Qpower (10 # 1) kk - num_to_Q x) <= (1 # 2) * Qpower (10 # 1) (k - 14)%Z)%Q) ->
+  (* parse::<f64> of a 15-digit mantissa is within 2e-15 *)
+  (forall s, mant14_shape s = true ->
+    exists m, parse_f64 s = Some m /\ is_finite m = true /\
+      (Qabs (num_to_Q m - denote_plain s) <= 2 # 1000000000000000)%Q) ->
+  (* floor(log10 a) is the decimal exponent or one more *)
+  (forall a K, valid a -> is_finite a = true -> (p10 K <= RV a < p10 (K + 1))%R ->
+               K <= as_i32 (nfloor (log10 a)) <= K + 1) ->
+  (* powi(10, j): exact for 0..22; correctly rounded and not below 10^j for -4..-1 *)
+  (forall j, 0 <= j <= 22 ->
+     valid (powi c_ten j) /\ (exists s m e, powi c_ten j = S754_finite s m e) /\
+     RV (powi c_ten j) = p10 j) ->
+  (forall j, -4 <= j <= -1 ->
+     valid (powi c_ten j) /\ (exists s m e, powi c_ten j = S754_finite s m e) /\
+     RV (powi c_ten j) = rnd64 (p10 j) /\ (p10 j <= RV (powi c_ten j))%R) ->
+  (* {:.N$}: documented shape; nearest multiple of 10^-N for N <= 18 *)
+  (forall x n, is_finite x = true -> 0 <= n -> prec_shape n (fmt_prec x n) = true) ->
+  (forall m dp, is_finite m = true -> 0 <= dp <= 18 ->
+     (Rabs (Q2R (denote_plain (fmt_prec m dp)) - RV m) <= / 2 * p10 (- dp))%R) ->
+  forall x K t,
+  valid x -> is_finite x = true -> neqb x nzero = false ->
+  (p10 K <= Rabs (RV x) < p10 (K + 1))%R ->
+  format_display_number log10 powi fmt_prec fmt_exp14 parse_f64 true x = Ok t ->
+  (Rabs (Q2R (denote t) - RV x) < p10 (K - 14))%R.
+Proof. exact display_accurate. Qed.
+Check C20_accuracy : forall log10 powi fmt_prec fmt_exp14 parse_f64,
+  (* {:.14e} is x correctly rounded to 15 significant digits *)
+  (forall x k, is_finite x = true -> in_decade x k ->
+    exists ms es kk, split_once "e" (fmt_exp14 x) = Some (ms, es) /\ mant14_shape ms = true /\
+      parse_i32 es = Some kk /\
+      (Qabs (denote_plain ms * Qpower (10 # 1) kk - num_to_Q x) <= (1 # 2) * Qpower (10 # 1) (k - 14)%Z)%Q) ->
+  (* parse::<f64> of a 15-digit mantissa is within 2e-15 *)
+  (forall s, mant14_shape s = true ->
+    exists m, parse_f64 s = Some m /\ is_finite m = true /\
+      (Qabs (num_to_Q m - denote_plain s) <= 2 # 1000000000000000)%Q) ->
+  (* floor(log10 a) is the decimal exponent or one more *)
+  (forall a K, valid a -> is_finite a = true -> (p10 K <= RV a < p10 (K + 1))%R ->
+               K <= as_i32 (nfloor (log10 a)) <= K + 1) ->
+  (* powi(10, j): exact for 0..22; correctly rounded and not below 10^j for -4..-1 *)
+  (forall j, 0 <= j <= 22 ->
+     valid (powi c_ten j) /\ (exists s m e, powi c_ten j = S754_finite s m e) /\
+     RV (powi c_ten j) = p10 j) ->
+  (forall j, -4 <= j <= -1 ->
+     valid (powi c_ten j) /\ (exists s m e, powi c_ten j = S754_finite s m e) /\
+     RV (powi c_ten j) = rnd64 (p10 j) /\ (p10 j <= RV (powi c_ten j))%R) ->
+  (* {:.N$}: documented shape; nearest multiple of 10^-N for N <= 18 *)
+  (forall x n, is_finite x = true -> 0 <= n -> prec_shape n (fmt_prec x n) = true) ->
+  (forall m dp, is_finite m = true -> 0 <= dp <= 18 ->
+     (Rabs (Q2R (denote_plain (fmt_prec m dp)) - RV m) <= / 2 * p10 (- dp))%R) ->
+  forall x K t,
+  valid x -> is_finite x = true -> neqb x nzero = false ->
+  (p10 K <= Rabs (RV x) < p10 (K + 1))%R ->
+  format_display_number log10 powi fmt_prec fmt_exp14 parse_f64 true x = Ok t ->
+  (Rabs (Q2R (denote t) - RV x) < p10 (K - 14))%R.
+Print Assumptions C20_accuracy.
+(* terminates the axiom block for the driver's Print-Assumptions parser *)
+Print Assumptions C20_names.
 
 (* REFUTED on the code before /repo commit 60da55e (fx = false), finding C20-F1 (now fixed):
    x = 999999999999998.875 (bits 430c6bf52633fff7).  f64::log10 returns 15.0 both on x and on
